@@ -12,6 +12,7 @@ how a maintainer happened to spell it. Behaviour-preserving edits that map to th
   N6  `list()`, `dict()`, `tuple()`       ==  `[]`, `{}`, `()`
   N7  `isinstance(x, (B, A))`             ==  `isinstance(x, (A, B))`  (tuple members sorted)
   N8  parentheses, line breaks, comments, docstring-free (ast.unparse)
+  N9  `max(b, a)`, `min(b, a)`            ==  `max(a, b)`, `min(a, b)`  (arguments sorted)
 
 Assumption (stated in DESIGN): ordering comparisons are between totally ordered values (ints, strings), so that
 `not a <= b` is `b < a`; none of the analysed code orders sets or floats that may be NaN.
@@ -133,6 +134,9 @@ class Normaliser(ast.NodeTransformer):
                 return loc(ast.Dict(keys=[], values=[]), node)
             if node.func.id == 'tuple':
                 return loc(ast.Tuple(elts=[], ctx=ast.Load()), node)
+        if isinstance(node.func, ast.Name) and node.func.id in ('max', 'min') and len(node.args) >= 2 and not node.keywords \
+                and not any(isinstance(a, ast.Starred) for a in node.args):
+            node.args = sorted(node.args, key=ast.unparse)        # N9: max / min of numbers do not depend on argument order
         if isinstance(node.func, ast.Name) and node.func.id in ('isinstance', 'issubclass') and len(node.args) == 2 \
                 and isinstance(node.args[1], ast.Tuple):
             node.args[1].elts = sorted(node.args[1].elts, key=ast.unparse)
